@@ -25,6 +25,10 @@ func main() {
 		}
 		return
 	}
+	if len(os.Args) >= 3 && os.Args[1] == "--native" {
+		nativeDev(os.Args[2])
+		return
+	}
 	if len(os.Args) >= 3 && os.Args[1] == "--elk" {
 		// developer aid: run one Elk source file through elkrun in this process and print the result
 		b, err := os.ReadFile(os.Args[2])
